@@ -125,7 +125,7 @@ Proof.
   assert (Hs : s' = set_flag s1 (a_flag e)) by congruence. subst s'. clear H.
   change (tbl_image (set_flag s1 (a_flag e))) with (tbl_image s1).
   unfold tbl_add in E.
-  destruct (add_m md U32 (cast U32 (a_claimed e)) (t_len s)); [|discriminate]. cbn [option_bind] in E.
+  destruct (add_c U32 (cast U32 (a_claimed e)) (t_len s)); [|discriminate]. cbn [option_bind] in E.
   destruct (match t_kind s with KViot => _ | KRhct => _ | _ => _ end); [|discriminate]. cbn [option_bind] in E.
   destruct (match t_kind s with KViot => _ | KPptt | KRhct => _ | _ => _ end); [|discriminate]. cbn [option_bind] in E.
   apply Some_inj in E. assert (Hs1 : s1 = fst (s1, h)) by reflexivity. rewrite <- E in Hs1. cbn [fst] in Hs1. subst s1.
